@@ -246,6 +246,16 @@ class NamespaceMapper(MutableMapping[str, str]):
                 else:
                     self._reverse.update((v, k and k + ':') for k, v in reversed(xmlns)
                                          if v not in self._reverse)
+
+                # A redeclared prefix cannot be used anymore for its previous namespace
+                for uri, prefix in list(self._reverse.items()):
+                    if self.namespaces.get(prefix[:-1]) != uri:
+                        for k in reversed(self.namespaces):
+                            if self.namespaces[k] == uri:
+                                self._reverse[uri] = k and k + ':'
+                                break
+                        else:
+                            del self._reverse[uri]
                 return xmlns
 
             elif not level or self.xmlns_processing == 'collapsed':
